@@ -228,7 +228,7 @@ theorem unknown_kid_never_signs (s : Store) (kid : String) (h : s.ref kid = none
     signKey valid s kid = .error .privateKeyNotFound ∧
     resolve valid s kid = .error .privateKeyNotFound ∧
     (∀ c, decrypt valid s kid c = .error .privateKeyNotFound) ∧
-    (∀ c, decryptJWE valid s kid c = .error .privateKeyNotFound) ∧
+    (∀ c, kid ≠ "" → decryptJWE valid s kid c = .error .privateKeyNotFound) ∧
     keyExists s kid = false ∧
     delete valid s kid = (s, .error .privateKeyNotFound) := by
   simp [signKey, getPrivateKey, resolve, decrypt, decryptJWE, keyExists, delete, findRef, h]
@@ -240,7 +240,7 @@ theorem sign_only_by_reference (s : Store) (kid : String) (k : Nat) (h : signKey
     ∃ r, s.ref kid = some r ∧ valid r.keyName = true ∧ s.key r.keyName = some k ∧
       resolve valid s kid = .ok k ∧
       (∀ c, decrypt valid s kid c = if k = c then .ok k else .error .wrongKey) ∧
-      (∀ c, decryptJWE valid s kid c = if k = c then .ok k else .error .wrongKey) := by
+      (∀ c, kid ≠ "" → decryptJWE valid s kid c = if k = c then .ok k else .error .wrongKey) := by
   unfold signKey getPrivateKey findRef at h
   cases hr : s.ref kid with
   | none => simp [hr] at h
@@ -256,7 +256,7 @@ theorem sign_only_by_reference (s : Store) (kid : String) (k : Nat) (h : signKey
         refine ⟨r, rfl, hv, hk, ?_, ?_, ?_⟩
         · simp [resolve, findRef, hr, wGet, hv, hk]
         · intro c; simp [decrypt, findRef, hr, wGet, hv, hk]
-        · intro c; simp [decryptJWE, getPrivateKey, findRef, hr, wGet, hv, hk]
+        · intro c hne; simp [decryptJWE, hne, getPrivateKey, findRef, hr, wGet, hv, hk]
     · simp [hv] at h
 
 /-- the backend is read, written and deleted only under validated names or the name `New` generated itself -/
@@ -264,7 +264,7 @@ theorem backend_touched_only_at_valid_or_new_names (s : Store) (op : Op) (name :
     (h : (step valid s op).key name ≠ s.key name) :
     valid name = true ∨ ∃ f, op = .new name f := by
   cases op with
-  | link k n v => exact absurd rfl h
+  | link k n v => simp [step, Store.key, link_backend] at h
   | migrate => simp [step, Store.key, migrate_backend] at h
   | new n f =>
     by_cases e : name = n
@@ -275,7 +275,18 @@ theorem backend_touched_only_at_valid_or_new_names (s : Store) (op : Op) (name :
       simp only [hk]
       cases hkn : s.key n with
       | some _ => rfl
-      | none => cases f <;> simp [Store.key, alGet_put, e]
+      | none =>
+        cases f with
+        | none => simp [Store.key, alGet_put, e]
+        | some kid =>
+          simp only
+          cases hs : saveRef { s with nextKey := s.nextKey + 1, backend := alPut s.backend n s.nextKey } kid
+              { keyName := n, version := "1" } with
+          | error _ => simp [Store.key, alGet_put, e]
+          | ok s2 =>
+            have := saveRef_ok _ kid _ s2 hs
+            subst this
+            simp [Store.key, alGet_put, e]
   | delete k =>
     left
     unfold step delete at h
@@ -471,7 +482,7 @@ theorem fact_signjws_sequence :
 theorem signjws_rule_is_signer_typed :
     signJWSHeaders [("jwk", .jwk "x25519.PrivateKey" "x")] = .ok [("jwk", .jwk "x25519.PrivateKey" "x")] ∧
     signJWSHeaders [("jwk", .jwk "[]uint8" "oct")] = .ok [("jwk", .jwk "[]uint8" "oct")] ∧
-    signJWTHeaders [("jwk", .jwk "*ecdsa.PrivateKey" "p")] = .ok [("jwk", .jwk "*ecdsa.PrivateKey" "p")] := by
+    (signJWTHeaders [("jwk", .jwk "*ecdsa.PrivateKey" "p")]).map (hget · "jwk") = .ok (some (.jwk "*ecdsa.PrivateKey" "p")) := by
   decide +kernel
 
 def view (r : Except JErr Headers) : Except JErr (Option HVal × Option HVal × Option HVal) :=
